@@ -2,13 +2,14 @@ package byz
 
 import (
 	"fmt"
+	"math/rand/v2"
 	"sort"
 	"strings"
-	"math/rand/v2"
 	"sync"
 	"sync/atomic"
 	"time"
 
+	"go.sia.tech/core/types"
 	"verif/harness/lab/chainlab"
 	"verif/harness/lab/p2plab"
 	"verif/harness/mon"
@@ -25,19 +26,20 @@ type branchDesc struct {
 }
 
 type clusterCase struct {
-	Stream    uint64          `json:"rng_stream"`
-	Regime    string          `json:"regime"`
-	Params    chainlab.Params `json:"params"`
-	TrunkLen  int             `json:"trunk_len"`
-	N         int             `json:"n"`
-	Topology  string          `json:"topology"`
-	Edges     [][2]int        `json:"edges"` // dialer -> listener, in connection order
-	Branches  []branchDesc    `json:"branches"`
-	Winner    int             `json:"winner"`
-	Cap       int             `json:"peer_cap"`
-	Discovery bool            `json:"discovery"`
-	JitterUS  int             `json:"jitter_us"`
-	Special   string          `json:"special,omitempty"`
+	Stream        uint64          `json:"rng_stream"`
+	Regime        string          `json:"regime"`
+	Params        chainlab.Params `json:"params"`
+	TrunkLen      int             `json:"trunk_len"`
+	N             int             `json:"n"`
+	Topology      string          `json:"topology"`
+	Edges         [][2]int        `json:"edges"` // dialer -> listener, in connection order
+	Branches      []branchDesc    `json:"branches"`
+	Winner        int             `json:"winner"`
+	Cap           int             `json:"peer_cap"`
+	Discovery     bool            `json:"discovery"`
+	JitterUS      int             `json:"jitter_us"`
+	Special       string          `json:"special,omitempty"`
+	InitialTarget byte            `json:"initial_target_first_byte"`
 }
 
 var c12Lens = []int{0, 1, 2, 9, 10, 11, 12, 16, 24, 40}
@@ -84,9 +86,14 @@ func genCluster(r *mon.Run, stream uint64, special string) (clusterCase, *chainl
 	regime := []string{"mix", "mix", "v2only", "v1only"}[rng.IntN(4)]
 	p := chainlab.RandomParams(regime, rng)
 	env := chainlab.NewEnv(p)
+	// a harder initial target than chainlab's default (with which every hash
+	// meets the target once difficulty is counted as work), set before the
+	// genesis state is derived
+	itarget := []byte{0x08, 0x10, 0x40, 0xFF}[rng.IntN(4)]
+	env.Net.InitialTarget = types.BlockID{itarget}
 	t := chainlab.NewTree(env, rng)
 	prof := chainlab.Profile{MaxTxns: 3}
-	cc := clusterCase{Stream: stream, Regime: regime, Params: p, Special: special}
+	cc := clusterCase{Stream: stream, Regime: regime, Params: p, Special: special, InitialTarget: itarget}
 	A, R := int(p.Allow), int(p.Require)
 	switch regime {
 	case "mix":
